@@ -27,11 +27,11 @@ SYMS_LITE = ["rx0A", "rx0B", "rx1C", "close0", "txA", "txB", "txT", "lisT", "lis
 RULE = ("breadth-first small-scope sweep: all sequences over the 12-symbol alphabet {open_rx_pipe(0,A|B), "
         "open_rx_pipe(1,C), close_rx_pipe(0), open_tx_pipe(A|B|T), auto_ack=0x3F|0x3E|0, listen=True|False} to depth 5 "
         "(quick) / 6 (thorough), seeded sequences to depth 12 beyond; per run a seeded address width 3..5 and address "
-        "family (distinct, TX sharing bytes with A, shorter than the width, TX equal to A). Non-trivial: an RX entry or "
+        "family (distinct, TX sharing bytes with A, shorter than the width, TX equal to A) and a seeded cost of one SPI transaction (30 / 150 / 400 us). Non-trivial: an RX entry or "
         "a TX-mode open_tx_pipe was checked; distinct = distinct (sequence, address family, width)")
 ASSUMPTIONS = ["chip/air model decision M2 (a PTX accepts an ACK only on enabled pipe 0 with RX_ADDR_P0 = TX_ADDR)",
                "for an address shorter than the address width only the written prefix is compared (the property does not define the rest)"]
-CLAUSES = {"rx_pipe0": "on RX entry pipe 0 = user's address or closed, never the TX address",
+CLAUSES = {"rx_pipe0": "on RX entry pipe 0 = user's address or closed, never the TX address (from the instant the receiver is active, not only when the call returns)",
            "tx_ack": "after open_tx_pipe() in TX mode ACKs are received", "ce": "CE low while changing role, high throughout RX"}
 SHRINK_KEYS = ("ops",)
 CHUNK = 300
@@ -75,8 +75,11 @@ def make(i, base_seed, tier, lite=False):
     else:
         ops = [rng.choice(syms) for _ in range(rng.randint(5, 12))]
         kind = "random"
+    # MCU personality: cost of one SPI transaction. With CircuitPython-class costs a single transaction outlasts the radio's
+    # 130 us RX settling time, so the order of the register writes inside a role change becomes observable on the air
     return {"seed": seed, "ops": ops, "kind": kind, "aw": rng.choice([3, 4, 5]), "family": rng.randrange(4),
-            "lite": lite, "backend": "busio" if lite else rng.choice(["spidev", "busio"]), "plus": rng.random() < 0.8}
+            "lite": lite, "backend": "busio" if lite else rng.choice(["spidev", "busio"]), "plus": rng.random() < 0.8,
+            "spi_us": stream(seed, "mcu").choice([30, 30, 150, 400])}
 
 
 def _addresses(scn):
@@ -99,7 +102,7 @@ def _addresses(scn):
 
 def run(scn):
     res = Result()
-    w = World(scn["seed"], max_events=400_000, max_time=60_000 * MS)
+    w = World(scn["seed"], max_events=400_000, max_time=60_000 * MS, main_knobs={"spi_overhead_us": scn.get("spi_us", 30), "spi_jitter_us": 0})
     try:
         _run(scn, w, res)
     except SimAbort:
@@ -142,6 +145,7 @@ def _run(scn, w, res):
 
     for k, op in enumerate(scn["ops"]):
         mark = len(ru.ce_log)
+        rmark = len(ru.rx_reconf)
         sim.log("call", "U", op)
         if op.startswith("rx0"):
             uut.open_rx_pipe(0, ad[op[3]])
@@ -174,6 +178,18 @@ def _run(scn, w, res):
             res.add("ce", {"kind": "ce_low_in_rx", "op": op}, "CE is low after %s although the radio is in RX mode" % op)
         # ---- rx_pipe0: on entering RX mode
         if op == "lisT":
+            # ... from the first instant of RX mode: was pipe 0 still re-addressed / closed after the receiver had become active?
+            for (t_, what, old, new, active_ns, was_en) in ru.rx_reconf[rmark:]:
+                if not was_en:
+                    continue
+                old_addr = bytes(ru.a[0x0A]) if what == "enable" else old
+                on_tx = tx is not None and old_addr[: min(aw, len(tx))] == tx[: min(aw, len(tx))] and (user0 is None or user0[:aw] != tx[:aw])
+                sim.count("rx_entry_transient_seen")
+                if on_tx:
+                    res.add("rx_pipe0", {"kind": "listened_on_tx_address_at_rx_entry", "how": what},
+                            "listen=True: the receiver had been active for %d us with pipe 0 enabled on the TX address %s before pipe 0 was %s (one SPI transaction costs %d us here)"
+                            % (active_ns // 1000, old_addr[:aw].hex(), "closed" if what == "enable" else "set to %s" % bytes(new)[:aw].hex(), scn.get("spi_us", 30)))
+                    break
             checked += 1
             en0 = bool(ru.r[2] & 1)
             if user0 is None:
